@@ -624,6 +624,15 @@ pub fn explore(ctx: &Ctx, obs: &Observer) {
         }
         tasks.push((*k, None));
     }
+    // thorough: two k above the u16 midpoint (2k does not fit u16), streams only: with 2^20
+    // values the buffer of a k = 40000 digest flushes three times
+    if ctx.tier == Tier::Thorough && std::env::var("VERIF_ONLY_K").is_err() {
+        for k in [32768u16, 40000] {
+            for s in [0u8, 1, 2, 5] {
+                tasks.push((k, Some(s)));
+            }
+        }
+    }
     tasks.par_iter().for_each(|(k, s)| {
         let t0 = std::time::Instant::now();
         match s {
@@ -695,7 +704,7 @@ pub fn run(ctx: &Ctx) -> i32 {
     let cov = json!({
         "exhaustive": true,
         "bounds": {
-            "k": KS,
+            "k": KS, "k_thorough_extra": "32768 and 40000 (streams sorted, reversed, sawtooth, far clusters)",
             "default_runs": format!("8 stream shapes (sorted, reversed, sawtooth, constant, heavy duplicates, two far clusters, geometric magnitudes 1e-300..1e300, alternating extremes), one run of 2^{lmax} values each; since stream(L) is a prefix of stream(L+1) the run visits EVERY length: observed (on a clone, which forces the compress) at every length 1..=4cap+2, at every length = -1,0,+1 mod 4cap (every buffer boundary; the observation at m*4cap is exactly the state the next update's compress produces), at every power of two and at the end"),
             "deviations": "bound 1; D = {merge(pool[0..4]), freeze->unfreeze, serialize->deserialize, duplicate of min, duplicate of max}; positions: 0,1,2, m*4cap+{-1,0,1,2} for m<=3 (quick)/6 (thorough), powers of two <= 2^14 (2^18), plus 63 evenly spaced in the first buffer (quick) / every position <= 4cap+2 for k<=100 and 255 evenly spaced otherwise (thorough); after the deviation the run continues for 2*4cap+2 values with an observation right after the deviation, at every buffer boundary and at the end",
             "merge_trees": "16 leaves (shape i%8, lengths 1,2,5,50,4cap-1,4cap,4cap+1,1000,3000,10000,7,4cap+2,20000,333,2*4cap+1,30000): left-deep over the fixed order and its reverse observed after every merge; balanced trees over the first n leaves, n=2..=16, both orders, observed at every internal node; all 6954 binary trees with <= 4 leaves over a pool of 6 observed at the root",
